@@ -140,11 +140,45 @@ def analyse(ck, tier, build='K1', prefix='C03', budget_fn=budget, witness=True, 
     ck.note(f'budgets/{build}', budgets)
     return budgets
 
+def libm_build(ck, tier, b1):
+    """the same clause for the --no-default-features build (K3): the kernels must be the same expressions as in
+    the default build (so the formula-level bound carries over) and the implementation error is recomputed with
+    that build's helper bodies (the libm calls, A-libm)"""
+    try:
+        c1, c3 = Ctx('K1'), Ctx('K3')
+        H3 = realerr.Helpers(Ctx('K3', 'yuvxyb_math'))
+        ck.note('helper_kind/K3', dict(H3.kind))
+        seen = {}
+        for t in STD_CURVES:
+            for d in ('to_linear', 'to_gamma'):
+                if t == 'Linear' or f"{t}/{d}" not in b1: continue
+                key = f"C03/{t}/{d}/libm-build"
+                e1, x1 = curve_kernel(c1, t, d); e3, x3 = curve_kernel(c3, t, d)
+                ck.count('libm_build_kernels')
+                if canon(e1) != canon(e3):
+                    ck.ob(key, 'UNDECIDED', 'the kernel of the --no-default-features build is a different expression: the formula-level bound of the default build does not carry over (see C20)'); continue
+                bud = budget(t, d)
+                k = canon(e3)
+                if k not in seen:
+                    try:
+                        seen[k] = realerr.sup_error(e3, x3, H3, 0.0, 1.0, 0.4 * bud, max_boxes=2000)
+                    except Unsupported as ex:
+                        seen[k] = (float('inf'), 0, None, str(ex))
+                e_up, n, box, msg = seen[k]
+                total = b1[f"{t}/{d}"]['formula'] + e_up
+                ck.ob(key, 'PROVED' if total < bud else 'UNDECIDED',
+                      f"--no-default-features build: same kernel expression, implementation error <= {e_up:.3g}: total {total:.4g} < {bud}" if total < bud else
+                      f"--no-default-features build: bound {total:.4g} not below {bud}" + (f" ({msg})" if msg else ''))
+    except Unsupported as ex:
+        ck.ob('C03/libm-build', 'UNDECIDED', f"analysis lost: {ex}")
+
 def run(tier):
     ck = Check('C03', tier, 'proof', 'closed-form extraction of each curve from MIR + interval branch and bound against the standard formula (formula level) + paired interval error propagation with certified powf/expf error (implementation level); match-table rules for Linear and the aliases')
-    analyse(ck, tier, 'K1')
+    b1 = analyse(ck, tier, 'K1')
+    libm_build(ck, tier, b1)
     ck.floor('curves', 28)
     ck.floor('error_boxes', 100)
+    ck.floor('libm_build_kernels', 26)
     ck.assumptions += ['A-libm: f32 ln / log10 of the target libm within 1 ulp; sqrt correctly rounded', 'host libm within 1 ulp (interval evaluation widened by 8 ulps)', 'xvYCC on [0,1] is the BT.1886 pair',
                        'default build (K1: fastmath, no FMA); the FMA and libm builds are covered by C20']
     return ck.finish()
